@@ -109,6 +109,34 @@ def score3(v0a: bool, v0b: bool, a0: bool, v1a: bool, v1b: bool, a1: bool, v2a: 
 LABELS = ["bonus", "Bonus_Check", "other"]
 
 
+def else_scores(neg0: bool, a0: bool, e0: bool, mu0: bool, neg1: bool, a1: bool, e1: bool, un1: bool) -> bool:
+    """
+    An else_message (what an untriggered feedback says instead) changes what is SHOWN, not what is scored: two scored
+    feedbacks (+25% / 0.5) with symbolic valence / triggered / else_message / muted / unscored next to a triggered mistake.
+
+    pre: True
+    post: _
+    """
+    if tick():
+        return True
+    r = Report()
+    Feedback(label="wrong", category="instructor", message="W", activate=True, valence=-1, report=r)
+    kw0 = {"else_message": "fine"} if e0 else {}
+    kw1 = {"else_message": "fine too"} if e1 else {}
+    Feedback(label="f0", category="instructor", message="M0", activate=a0, score="+25%", valence=-1 if neg0 else 1,
+             muted=mu0, report=r, **kw0)
+    Feedback(label="f1", category="instructor", message="M1", activate=a1, score=0.5, valence=-1 if neg1 else 1,
+             unscored=un1, report=r, **kw1)
+    final = simple.resolve(r)
+    total = Fraction(0)
+    if a0 != neg0:
+        total += Fraction(1, 4)
+    if a1 != neg1 and not un1:
+        total += Fraction(1, 2)
+    flag("summed")
+    return final.score == round(float(total), 2)
+
+
 def label_suppress(l0: bool, l1: bool, neg0: bool, a0: bool, mu0: bool, neg1: bool, a1: bool,
                    s0: bool, s1: bool, with_cat: bool) -> bool:
     """
@@ -143,6 +171,38 @@ def label_suppress(l0: bool, l1: bool, neg0: bool, a0: bool, mu0: bool, neg1: bo
         total += Fraction(1, 2)
     flag("summed")
     return final.score == round(float(total), 2)
+
+
+NUMERIC_SCORES = [0.00001, 1e-07, 0.004, 0.1, 5, 123456789.0, 1e16, -0.00001]
+
+
+def numeric_magnitudes(k0: bool, k1: bool, k2: bool, j0: bool, j1: bool, j2: bool, neg0: bool, a0: bool, a1: bool) -> bool:
+    """
+    Scores given as NUMBERS of any magnitude (Python renders small and large floats in exponent notation): two feedbacks
+    scoring values from {1e-05, 1e-07, 0.004, 0.1, 5, 123456789.0, 1e16, -1e-05} next to a triggered gently(); the final
+    score is the exact sum of the ones that count, rounded to two decimals.
+
+    pre: True
+    post: _
+    """
+    if tick():
+        return True
+    s0, s1 = NUMERIC_SCORES[bits(k0, k1, k2)], NUMERIC_SCORES[bits(j0, j1, j2)]
+    r = Report()
+    Feedback(label="wrong", category="instructor", message="W", activate=True, valence=-1, report=r)
+    Feedback(label="f0", category="instructor", message="M0", activate=a0, score=s0, valence=-1 if neg0 else 1, report=r)
+    Feedback(label="f1", category="instructor", message="M1", activate=a1, score=s1, valence=1, report=r)
+    final = simple.resolve(r)
+    total = Fraction(0)
+    if a0 != neg0:
+        total += Fraction(s0)
+    if a1:
+        total += Fraction(s1)
+    want = round(float(total), 2)
+    if abs(Fraction(want) - total) == Fraction(1, 200):
+        return True                      # a tie at the third decimal: float rounding of ties is not part of the property
+    flag("summed")
+    return final.score == want
 
 
 def score_reach(a0: bool, a1: bool) -> bool:
